@@ -146,6 +146,9 @@ struct ThreadLocalCache {
     global_pool: Weak<ThreadLocalMemoryPool>,
     /// Statistics (optional)
     stats: Option<Arc<ThreadLocalPoolStats>>,
+    /// Blocks handed out by this cache and not yet returned: while there are any, the areas
+    /// they live in must not be released
+    outstanding: usize,
 }
 
 /// Hot allocation area for fast sequential allocation
@@ -217,11 +220,18 @@ impl ThreadLocalCache {
             frag_inc: 0,
             global_pool,
             stats,
+            outstanding: 0,
         }
     }
 
     /// Allocate memory from thread-local cache
     fn allocate(&mut self, size: usize, config: &ThreadLocalPoolConfig) -> Result<NonNull<u8>> {
+        let ptr = self.allocate_block(size, config)?;
+        self.outstanding += 1;
+        Ok(ptr)
+    }
+
+    fn allocate_block(&mut self, size: usize, config: &ThreadLocalPoolConfig) -> Result<NonNull<u8>> {
         // A block that belongs to a size class is carved at the full class size: once freed it
         // is cached under that class and may be handed out for any request of the class
         let mut carve_size = size;
@@ -254,6 +264,8 @@ impl ThreadLocalCache {
 
     /// Deallocate memory to thread-local cache
     fn deallocate(&mut self, ptr: NonNull<u8>, size: usize, config: &ThreadLocalPoolConfig) -> Result<()> {
+        self.outstanding = self.outstanding.saturating_sub(1);
+
         // Find appropriate size class
         if let Some(list_index) = self.size_to_list_index(size) {
             let free_list = &mut self.free_lists[list_index];
@@ -490,9 +502,20 @@ impl ThreadLocalMemoryPool {
     }
 
     /// Clear thread-local caches (for cleanup)
+    ///
+    /// While allocations of the calling thread are still alive, only the cached free blocks
+    /// are forgotten: the areas stay allocated, because the live blocks point into them.
     pub fn clear_caches(&self) {
         CURRENT_CACHE.with(|cache_cell| {
-            *cache_cell.borrow_mut() = None;
+            let mut cache_opt = cache_cell.borrow_mut();
+            match cache_opt.as_mut() {
+                Some(cache) if cache.outstanding > 0 => {
+                    for list in cache.free_lists.iter_mut() {
+                        list.clear();
+                    }
+                }
+                _ => *cache_opt = None,
+            }
         });
     }
 }
